@@ -92,7 +92,8 @@ pub fn observe(s: &Sentence, with_cands: bool) -> Obs {
     let text = s.as_raw_text().to_string();
     let n_chars = text.chars().count();
     let mut tokens = vec![];
-    let mut cands = if with_cands { Some(vec![]) } else { None };
+    #[allow(unused_mut)]
+    let mut cands: Option<Vec<Vec<Vec<(String, i32)>>>> = if with_cands && cfg!(feature = "tag-prediction") { Some(vec![]) } else { None };
     let mut token_overflow = false;
     for (k, t) in s.iter_tokens().enumerate() {
         if k > n_chars + 1 {
@@ -105,6 +106,7 @@ pub fn observe(s: &Sentence, with_cands: bool) -> Obs {
             surface: t.surface().to_string(),
             tags: t.tags().iter().map(|x| x.as_ref().map(|c| c.to_string())).collect(),
         });
+        #[cfg(feature = "tag-prediction")]
         if let Some(c) = cands.as_mut() {
             c.push(
                 t.tag_candidates()
